@@ -59,6 +59,19 @@ def gen(tier, rng):
                     cases.append(rz.resize_case(pt, sw, sh, dw, dh, alg=alg, flt=flt, m=m, alpha=alpha, box=box, Q=Q, cpu=rz.pick(n, 101, rz.CPUS),
                                                 src_c={"g": "data", "v": content(pt, kinds[n % 4], sw, sh, rng)},
                                                 log=("src", "dst", "hooks", "imgs"), chk=("pipeline", "ret_ok")))
+    # long windows (16 .. 60 taps: the wide-accumulator branches of the SIMD kernels), row counts of every residue of the
+    # 4-row kernels, on every back-end
+    for pt in rz.ALL_PT:
+        for (sw, sh, dw, dh) in ((40, 3, 2, 3), (3, 40, 3, 2), (70, 5, 3, 5), (48, 6, 2, 2)):
+            n += 1
+            flt = rz.pick(n, 316, ["Box", "Bilinear", "Lanczos3", "Gaussian", "Hamming"])
+            kind = rz.pick(n, 317, ["rand", "extreme", "checker"])
+            data = content(pt, kind, sw, sh, rng)
+            for cpu in rz.CPUS:
+                if tier == "quick" and cpu != "avx2" and rz.pick(n, 318, [0, 1]):
+                    continue
+                cases.append(rz.resize_case(pt, sw, sh, dw, dh, alg="conv", flt=flt, m=1, alpha=False, cpu=cpu, src_c={"g": "data", "v": data},
+                                            log=("src", "dst", "hooks", "imgs"), chk=("pipeline", "ret_ok")))
     # sub-pixel shifts without a size change and every pass-planning combination (origin integer / fractional x extent equal / different)
     Q = 4
     for pt in rz.ALL_PT:
